@@ -195,16 +195,7 @@ def _run_core(world, plan):
                 _fire_conn_fault(world, link, ft)
 
             if ft.get('at_iter') is not None:
-                target = ft['at_iter']
-                prev = loop.on_iteration
-
-                def hook(lp, target=target, fire=fire, prev=prev):
-                    if lp.iters == target:
-                        fire()
-                    if prev is not None:
-                        prev(lp)
-
-                loop.on_iteration = hook
+                world.at_iter(ft['at_iter'], fire)
             else:
                 loop.call_at(ft['at'], lambda fire=fire, ft=ft: loop.call_after_hops(ft.get('hops', 0), fire))
 
